@@ -44,6 +44,10 @@ ITEMS = [
     ("s-conflict", "spec", ORDER_SENSITIVE["dfa-conflicts"]),
     # the same TEXT as a string in one specification and as a pattern in another (different languages)
     ("s-dotstr", "spec", G % "dotstr" + 'start = "." "a.b" "x+" "[ab]";\n'),
+    # alphabets that differ only in code points without a character literal (U+FFFD, a surrogate): the emitted labels differ
+    ("s-fffd", "spec", G % "fffd" + 'XX = /a\\xFFFD/;\nstart = XX;\n'),
+    ("s-d800", "spec", G % "dsurr" + 'XX = /a\\xD800/;\nstart = XX;\n'),
+    ("s-dc00", "spec", G % "dcsurr" + 'XX = /a\\xDC00/;\nstart = XX;\n'),
     ("s-dotpat", "spec", G % "dotpat" + 'ANY = /./;\nAB = /a.b/;\nXS = /x+/;\nCL = /[ab]/;\nstart = ANY AB XS CL;\n'),
 ]
 
@@ -161,6 +165,6 @@ def run(ck):
     for x in recs[:: max(1, len(recs) // 8)]:
         ck.sample({"item": x["base"], "run": x["variant"], "digest": x["hash"], "isolated": x["ref"]})
     ck.assumptions += ["the race detector is the observation channel for unsynchronised access; schedules are those the Go scheduler produced in this run",
-                       "digest of a run = sha1 of the derived grammar, definitions, precedences, scanner automaton, owner table and LALR table (or error texts)"]
+                       "digest of a run = sha1 of the derived grammar, definitions, precedences, scanner automaton, owner table, LALR table and the emitted files (or error texts)"]
     return ck.finish({"exhaustive": False, "items": len(items), "sequential_orders": len(orders), "concurrent_runs": len(conc),
                       "race_reports": len(sites), "race_sites": sorted(set(sites))[:12]})
